@@ -110,7 +110,8 @@ Case vf_generate() {
       auto around = [&]() -> int64_t {
         switch (vf::pickn(6)) {
           case 0: return (int64_t)lo; case 1: return (int64_t)hi; case 2: return (int64_t)lo - vf::pick<int>(1, 5); case 3: return (int64_t)hi + vf::pick<int>(1, 5);
-          case 4: return (int64_t)(lo + (hi - lo) / 2); default: return vf::pick<int>(-130, 130);
+          case 4: return vf::chance(70) ? (int64_t)(lo + (hi - lo) / 2) : vf::oneof<int64_t>({16777216, 2147483644, -2147483645, 1073741824, 33554432}) + vf::pick<int>(-2, 2);   // also neighbours beyond 2^24 (no float tells them apart)
+          default: return vf::pick<int>(-130, 130);
         }
       };
       switch (c.kind) {
